@@ -283,6 +283,11 @@ let parse_e2e (o : string) : e2e_op =
   | _ -> failwith ("bad scenario op " ^ o)
 
 let bld_step lz call_of (st, cid) (o : string) : (state * int) * string =
+  if o = "H" then begin
+    (* graceful stop with the connections held through shutdown_timeout: completes at the timeout *)
+    let busy = List.exists (fun wk -> wk.w_queue <> [] || wk.w_picked <> []) st.ws in
+    ((st, cid), if busy then "H=timeout" else "H=idle")
+  end else
   if o = "G" then begin
     (* graceful stop as the last op: waits for the connections in progress (C06); the accept/worker model of this driver only says
        whether any is in progress *)
@@ -377,7 +382,7 @@ let bldgen (line : string) : string =
   let st = fst !acc in
   if List.exists (fun ls -> ls.l_to <> None) st.lsts then emit "+600";
   if (fst !acc).paused then emit "R";
-  if has 'g' then emit "G";
+  if has 'h' then emit "H" else if has 'g' then emit "G";
   Printf.sprintf "W=%d;L=%d;B=%s;S=%s;ops=%s" w l (List.assoc "B" fields) (try List.assoc "S" fields with Not_found -> "a") (String.concat " " (List.rev !out))
 
 
